@@ -281,10 +281,7 @@ def run_scenario(e, scenario, variant, seed, ctx_rng_seed):
             bad.append(("%s.fit:does-not-return-self" % e.cls, "fit does not return the estimator itself",
                         repr(r)[:80], "self"))
         for ob in e.observers:
-            _, err = guarded(observer_method(ob), lambda ob=ob: _menu.call_observer(est, ob, X, y), (X, y, w))
-            if err is not None:
-                bad.append(("%s.%s:raises-after-fit" % (e.cls, observer_method(ob)), "observer raises after a successful fit",
-                            "%s: %s" % (type(err).__name__, str(err)[:200]), "no exception"))
+            guarded(observer_method(ob), lambda ob=ob: _menu.call_observer(est, ob, X, y), (X, y, w))
         return bad, True
     # failing fit first
     if kind == "bad-data":
@@ -316,15 +313,13 @@ def run_scenario(e, scenario, variant, seed, ctx_rng_seed):
                        "%s: %s" % (type(ex).__name__, str(ex)[:200]), "fit succeeds")], executed
     if e.seeded:
         for ob in e.observers:
-            try:
+            def outcome(obj):
                 numpy.random.seed(seed + 2)
-                a = _menu.call_observer(est, ob, X, y)
-                numpy.random.seed(seed + 2)
-                b = _menu.call_observer(fresh, ob, X, y)
-            except Exception as ex:  # noqa: BLE001
-                bad.append(("%s.%s:raises-after-fit" % (e.cls, observer_method(ob)), "observer raises after a successful fit",
-                            "%s: %s" % (type(ex).__name__, str(ex)[:200]), "no exception"))
-                continue
+                try:
+                    return _menu.call_observer(obj, ob, X, y)
+                except Exception as ex:  # noqa: BLE001
+                    return ("raises", type(ex).__name__)
+            a, b = outcome(est), outcome(fresh)
             if a != b:
                 bad.append(("%s.fit:refit-after-failure-differs:%s" % (e.cls, observer_method(ob)),
                             "after a failing fit (%s %s) a successful fit differs from a fresh instance's" % (kind, arg),
